@@ -144,6 +144,10 @@ def run(ctx):
     for _ in range(n_noise):
         mode = rng.choice(["uniform", "dense", "header"])
         cases.append(("noise:" + mode, noise(rng, rng.choice([0, 1, 5, 20, 60, 200, rng.randint(0, 400)]) , mode), None, 0))
+    # checksum-valid frames of every one of the 256 type bytes (known or not), alone and followed by a known frame
+    for kind in range(256):
+        fr = fg.mk(kind, bytes(rng.randrange(256) for _ in range(rng.choice([0, 1, 4]))), rng.choice([86, 0]), rng.choice([69, 81]))
+        cases.append(("noise:alltypes", fr + (fg.mk(25, b"", 86, 69) if kind & 1 else b""), None, 0))
     n_run = 250 if quick else 6000
     for i in range(n_run):
         mode = rng.choice(["uniform", "dense", "header"])
